@@ -4,6 +4,7 @@ import (
 	"encoding/json"
 	"fmt"
 	"go/token"
+	"go/types"
 	"os"
 	"path/filepath"
 	"sort"
@@ -354,80 +355,76 @@ func checkC04(c *Ctx) *core.Result {
 		pos    token.Pos
 	}
 	var sites []site
-	for _, ret := range ssax.Returns(ctx) {
-		if b, ok := ssax.ConstBool(ret.Results[0]); !ok || !b {
-			continue
+	// the ways the classifier answers true; boolean helpers it delegates to are
+	// looked into (except the anchored predicates, which are facts of their own)
+	expandHelper := func(h *ssa.Function) bool {
+		if !p.InModule(h) || h == isTag || h == isURL || h == urlMatch || h == a.FnOpt("xss.next") || len(h.Blocks) == 0 {
+			return false
 		}
-		// one site per way of reaching the return block (a shared `return true`
-		// after `a || b` has one predecessor per disjunct)
-		var factSets [][]ssax.Fact
-		if len(ret.Block().Preds) > 1 {
-			for _, pb := range ret.Block().Preds {
-				fs := ssax.Facts(pb)
-				if iff, ok := pb.Instrs[len(pb.Instrs)-1].(*ssa.If); ok && pb.Succs[0] != pb.Succs[1] {
-					fs = append(fs, ssax.ExpandCond(iff.Cond, pb.Succs[0] == ret.Block())...)
-				}
-				factSets = append(factSets, fs)
+		res := h.Signature.Results()
+		if res.Len() != 1 {
+			return false
+		}
+		bt, ok := res.At(0).Type().Underlying().(*types.Basic)
+		return ok && bt.Kind() == types.Bool
+	}
+	for _, way := range ssax.TrueWays(ctx, expandHelper, 0) {
+		s := site{pos: way.Pos}
+		for _, f := range way.Facts {
+			if call, ok := f.Cond.(*ssa.Call); ok && call.Common().StaticCallee() == a.FnOpt("xss.next") {
+				continue
 			}
-		} else {
-			factSets = [][]ssax.Fact{ssax.Facts(ret.Block())}
-		}
-		for _, factSet := range factSets {
-			s := site{pos: ret.Pos()}
-			for _, f := range factSet {
-				if call, ok := f.Cond.(*ssa.Call); ok && call.Common().StaticCallee() == a.FnOpt("xss.next") {
-					continue
-				}
-				bo, isBin := f.Cond.(*ssa.BinOp)
-				if isBin && a.loadsField(bo.X, "xss.state.tokenType") {
-					if k, ok := ssax.ConstInt(bo.Y); ok && bo.Op == token.EQL && f.True {
-						s.tt, s.hasTT = k, true
-					}
-					continue
-				}
-				if isBin && bo.Op == token.EQL {
-					if _, isPhi := bo.X.(*ssa.Phi); isPhi {
-						if k, ok := ssax.ConstInt(bo.Y); ok {
-							if f.True {
-								s.attr, s.hasAt = k, true
-							}
-							continue
-						}
-					}
-				}
-				// a describable extra condition
-				d := "?"
-				switch {
-				case isBin:
-					if cs, ok := ssax.ConstString(bo.Y); ok {
-						d = fmt.Sprintf("str %s %q", bo.Op, cs)
-					} else if call, ok := bo.X.(*ssa.Call); ok {
-						if fn := call.Common().StaticCallee(); fn != nil {
-							full := len(call.Common().Args) > 0 && tokenSliceOf(a, call.Common().Args[0])
-							d = fmt.Sprintf("%s(token:%v) %s %s", fn.Name(), full, bo.Op, bo.Y)
-						}
-					} else if a.loadsField(bo.X, "xss.state.tokenLen") {
-						d = fmt.Sprintf("tokenLen %s %s", bo.Op, bo.Y)
-					} else {
-						d = fmt.Sprintf("%s %s %s", bo.X.Name(), bo.Op, bo.Y)
-					}
-				default:
-					if call, ok := f.Cond.(*ssa.Call); ok {
-						if fn := call.Common().StaticCallee(); fn != nil {
-							full := len(call.Common().Args) > 0 && tokenSliceOf(a, call.Common().Args[0])
-							d = fmt.Sprintf("%s(token:%v)", fn.Name(), full)
-						}
-					}
-				}
-				if !f.True {
-					d = "!(" + d + ")"
-				}
-				s.extras = append(s.extras, d)
+			bo, isBin := f.Cond.(*ssa.BinOp)
+			var bx ssa.Value
+			if isBin {
+				bx = f.Arg(bo.X)
 			}
-			sites = append(sites, s)
+			if isBin && a.loadsField(bx, "xss.state.tokenType") {
+				if k, ok := ssax.ConstInt(bo.Y); ok && bo.Op == token.EQL && f.True {
+					s.tt, s.hasTT = k, true
+				}
+				continue
+			}
+			if isBin && bo.Op == token.EQL {
+				if _, isPhi := bx.(*ssa.Phi); isPhi {
+					if k, ok := ssax.ConstInt(bo.Y); ok {
+						if f.True {
+							s.attr, s.hasAt = k, true
+						}
+						continue
+					}
+				}
+			}
+			// a describable extra condition
+			d := "?"
+			switch {
+			case isBin:
+				if cs, ok := ssax.ConstString(bo.Y); ok {
+					d = fmt.Sprintf("str %s %q", bo.Op, cs)
+				} else if call, ok := bx.(*ssa.Call); ok {
+					if fn := call.Common().StaticCallee(); fn != nil {
+						full := len(call.Common().Args) > 0 && tokenSliceOf(a, f.Arg(call.Common().Args[0]))
+						d = fmt.Sprintf("%s(token:%v) %s %s", fn.Name(), full, bo.Op, bo.Y)
+					}
+				} else if a.loadsField(bx, "xss.state.tokenLen") {
+					d = fmt.Sprintf("tokenLen %s %s", bo.Op, bo.Y)
+				} else {
+					d = fmt.Sprintf("%s %s %s", bx.Name(), bo.Op, bo.Y)
+				}
+			default:
+				if call, ok := f.Cond.(*ssa.Call); ok {
+					if fn := call.Common().StaticCallee(); fn != nil {
+						full := len(call.Common().Args) > 0 && tokenSliceOf(a, f.Arg(call.Common().Args[0]))
+						d = fmt.Sprintf("%s(token:%v)", fn.Name(), full)
+					}
+				}
+			}
+			if !f.True {
+				d = "!(" + d + ")"
+			}
+			s.extras = append(s.extras, d)
 		}
-		_ = 0
-		//r.Note("verdict site %s: tt=%d(%v) attr=%d(%v) extras=%v", p.Pos(s.pos), s.tt, s.hasTT, s.attr, s.hasAt, s.extras)
+		sites = append(sites, s)
 	}
 	positive := func(exs []string) []string {
 		var out []string
